@@ -25,3 +25,18 @@ REG.contract('XMLElement.edits', params={'self': 'ref[XMLElement]', 'node': 'ref
                       'implies(not eqv(self, node), typeis(result, "XMLElementEdit"))'])
 REG.targets = ['graphtage.KeyValuePairNode.__eq__', 'sequences.SequenceNode.__eq__', 'graphtage.LeafNode.__eq__',
                'xml.XMLElement.edits']
+
+# ------------------------------------------------------------------------------------------------ ordering of key/value pairs (C08, C07)
+# DictNode.from_dict sorts the pairs to make the child order canonical: the pair order must be the lexicographic order
+# (key first, then value) over the abstract node order nodelt.
+REG.uf('nodelt', 'int', 'int', 'bool')
+REG.contract('TreeNode.__lt__', params={'self': 'ref[TreeNode]', 'other': 'ref[TreeNode]'}, returns='bool', virtual=True,
+             pure=True, ensures=['result == nodelt(self, other)'],
+             trusted='abstract order on nodes: x < y is a pure function of the two nodes (LeafNode.__lt__ compares payloads, '
+                     'falling back to their text)')
+REG.contract('KeyValuePairNode.__lt__', params={'self': 'ref[KeyValuePairNode]', 'other': 'ref[TreeNode]'}, returns='bool',
+             pure=True,
+             ensures=['implies(isinstance(other, KeyValuePairNode), result == (nodelt(self.key, other.key) or '
+                      '(eqv(self.key, other.key) and nodelt(self.value, other.value))))',
+                      'implies(not isinstance(other, KeyValuePairNode), result == nodelt(self.key, other))'])
+REG.targets.append('graphtage.KeyValuePairNode.__lt__')
